@@ -1,10 +1,12 @@
 #!/bin/bash
 # Dev tool: run the repository's own test suite from a checkout directory, partitioned
-# over parallel pytest processes (test ids contain object addresses, so xdist cannot be used).
+# over parallel pytest processes (test ids contain object addresses, so xdist cannot be used),
+# and compare the passed set with BASELINE.json's stable_pass.
 #   tools/suite.sh <checkout dir> <log prefix>
 D="$1"; P="$2"
 cd "$D" || exit 3
 export OMP_NUM_THREADS=2
+rm -f ${P}.part*.log ${P}.part*.xml
 parts=(
  "test/unit/reductions/exponentiated_gradient/test_exponentiatedgradient_arguments.py"
  "test/unit/reductions/exponentiated_gradient/test_exponentiatedgradient_smoke.py test/unit/reductions/exponentiated_gradient/test_control_features.py test/unit/reductions/exponentiated_gradient/test_lagrangian.py test/unit/reductions/exponentiated_gradient/test_pickle.py test/unit/reductions/exponentiated_gradient/test_utilities.py"
@@ -16,8 +18,24 @@ parts=(
 )
 i=0
 for p in "${parts[@]}"; do
-  ( /venv/bin/python -m pytest -q -p no:cacheprovider --timeout=900 --continue-on-collection-errors $p > "${P}.part$i.log" 2>&1; echo "exit=$?" >> "${P}.part$i.log" ) &
+  ( /venv/bin/python -m pytest -q -p no:cacheprovider --timeout=900 --continue-on-collection-errors --junitxml="${P}.part$i.xml" $p > "${P}.part$i.log" 2>&1; echo "exit=$?" >> "${P}.part$i.log" ) &
   i=$((i+1))
 done
 wait
 for f in ${P}.part*.log; do echo "$f: $(tail -2 $f | tr '\n' ' ')"; done
+/venv/bin/python - "$P" <<'PY'
+import sys, glob, json, xml.etree.ElementTree as ET
+P = sys.argv[1]
+passed, failed = set(), set()
+for fn in glob.glob(P + ".part*.xml"):
+    for tc in ET.parse(fn).getroot().iter("testcase"):
+        tid = (tc.get("classname") or "") + "::" + (tc.get("name") or "")
+        if tc.find("failure") is not None or tc.find("error") is not None: failed.add(tid)
+        elif tc.find("skipped") is not None: pass
+        else: passed.add(tid)
+passed -= failed
+base = set(json.load(open("/root/.vp/BASELINE.json"))["stable_pass"])
+missing = sorted(base - passed)
+print(f"BASELINE stable_pass={len(base)} passed_now={len(passed)} failed_now={len(failed)} baseline_not_passing={len(missing)}")
+for m in missing[:40]: print("  NOT PASSING:", m, "(failed)" if m in failed else "(absent)")
+PY
